@@ -240,7 +240,7 @@ fn gen(rng: &mut Rng, i: u64) -> String {
 		7 => (hi.wrapping_sub(vb * 2), vb * *rng.pick(&[1u32, 2, 3])),
 		_ => (first_iat, iat_total),
 	};
-	let img = Image { len, fill, hdr: spec.header_bytes(), pokes: Vec::new() };
+	let img = Image { len, fill, hdr: scrambled_header(&spec, rng), pokes: Vec::new() };
 	let place = *rng.pick(&[0usize, 4, 8, 12]);
 	let ipf: Vec<String> = ip.iter().filter(|(o, _)| *o < len + 64).map(|(o, b)| format!("{}:{}", o, hex(b))).collect();
 	format!(
